@@ -272,6 +272,18 @@ def obligations(tier):
             assumes=["SMTP DATA stream of exactly N arbitrary bytes"], outside=["counts above 1 or 2 (uniform loop)"],
             claim="blast()'s hop counter equals the number of Received/Delivered-To header lines of the message it stores",
             expect_witnesses=["aborted", "complete", "one_hop"]))
+    # the size limit on the real decoder (smtp_data cuts blast(); here blast()+put() run with the limit in force).
+    # kills: `if (!--bytestooverflow)` -> `if (!bytestooverflow--)`; put() counting after the hand-over; limit armed as databytes
+    obls.append(Obl("blast_databytes", "blast_db.c",
+        progs=[Prog("qmail-smtpd.c", nomain=True)], lib=["ideal_substdio.c"], sysrename=["_exit", "time"],
+        grid=[{"N": 8, "DB": 1}, {"N": 8, "DB": 3}] if q else [{"N": 8, "DB": 1}, {"N": 8, "DB": 3}, {"N": 12, "DB": 2}, {"N": 12, "DB": 5}],
+        unwind_default=lambda p: p["N"] + 3, unwind=lambda p: {"substdio_put": 64}, timeout=900,
+        functions=["qmail-smtpd.c:blast", "qmail-smtpd.c:put"],
+        cuts=["qmail_put -> recorder (any run length)", "qmail_fail -> counted"], stubs=["substdio: ideal streams (feed with symbolic read boundaries); end of input = die_read()"],
+        assumes=["SMTP DATA stream of exactly N arbitrary bytes; databytes = DB, bytestooverflow = DB+1 as smtp_data() arms it"],
+        outside=["streams longer than N", "limits above 5"],
+        claim="with databytes = DB in force, blast()/put() flag the transaction as failed iff more than DB decoded bytes are handed to the queue, and do so before byte DB+1 is handed over",
+        expect_witnesses=["aborted", "complete", "over_limit", "exactly_at_limit"]))
     # a client disconnect or stall at any byte is never mistaken for the end of the message or for a successful write: the daemons' saferead()/
     # safewrite() wrappers and the timeout units below them (harness/C09/safeio.c, timeout_rw.c)
     from vlib import borrow; obls += borrow("C09", ["timeoutread_unit", "timeoutwrite_unit", "smtpd_safeio"], tier)
